@@ -473,6 +473,24 @@ func RunC20(t *testing.T) {
 			fmt.Printf("KNOWN-FINDING: property=C20 %s\n", k.Text)
 		}
 	}
+	// every position 0..40 of a base58 string x a set of multi-byte / invalid characters
+	sweep := 0
+	for _, ch := range []string{"é", "ÿ", "\u0080", "\u0100", "\u07ff", "\u0800", "\ufffd", "\U00010123", "\xff", "\xc3", "\xe2\x82"} {
+		for pos := 0; pos <= 40; pos++ {
+			for _, base := range []string{"111111111111111111111111111111111111111111", "2NEpo7TZRRrLZSi2U2NEpo7TZRRrLZSi2U2NEpo7TZ"} {
+				s := base[:pos] + ch + base[pos:]
+				if v := runInput(nil, c20input{Kind: "cli", Str: s}, 0); v != nil {
+					saveFail("C20", "c20", &c20case{Gen: enumGenesis([4]int{0, 1, 2, 3}), Inputs: []c20input{{Kind: "cli", Str: s}}}, v)
+					t.Fatalf("VIOLATION %s", v)
+				}
+				sweep++
+			}
+		}
+	}
+	st.Class("cli-position-sweep", sweep)
+	st.mu.Lock()
+	st.Evaluations += sweep
+	st.mu.Unlock()
 	pre := c20prelude()
 	for i, c := range pre {
 		if v := c20replay(c); v != nil {
